@@ -720,6 +720,21 @@ func (d *Disk) SetFileBytes(name string, b []byte) {
 	d.durDir[name] = ino
 }
 
+// TruncateInPlace shortens the existing file (the same inode: handles that are open on it
+// see the shorter file), durably.
+func (d *Disk) TruncateInPlace(name string, n int) {
+	d.mu.Lock()
+	defer d.mu.Unlock()
+	ino := d.files[name]
+	if ino == nil || n < 0 || n >= len(ino.vol) {
+		return
+	}
+	ino.vol = append([]byte{}, ino.vol[:n]...)
+	ino.dur = append([]byte{}, ino.vol...)
+	ino.durShared = false
+	ino.pend = nil
+}
+
 // RemoveFile removes a file outright (durably).
 func (d *Disk) RemoveFile(name string) {
 	d.mu.Lock()
